@@ -422,6 +422,138 @@ def check_dup(chk, prog, summ, f, nullable):
 _FATAL = {}
 
 
+from ..models import ALLOCATORS, PURE_LIBC
+ALLOC_LIKE = ALLOCATORS | {"memcpy", "memmove", "__builtin___memcpy_chk", "__builtin_memcpy"}
+
+
+def derivers(unit):
+    """{function name: (derived field, {input fields})} for functions that compute a field of their object from other
+    fields of the same object through a call (self->data = compile(text, self->flags, ..)), plus the functions that end in
+    such a call on every non-failure return."""
+    direct = {}
+    for g in unit.functions.values():
+        if g.body is None or not g.params:
+            continue
+        p0 = g.params[0]["d"]
+
+        def own_field(e):
+            e = X.strip(e)
+            if e is not None and e.get("k") == "member" and e.get("arrow"):
+                b = X.strip(e["ch"][0])
+                if b is not None and b.get("k") == "ref" and b.get("d") == p0:
+                    return e["n"]
+            return None
+        for x in walk(g.body):
+            if x.get("k") != "assign" or x.get("op") != "=":
+                continue
+            d_ = own_field(x["ch"][0])
+            if d_ is None:
+                continue
+            ins = set()
+            for c in X.calls_in(x["ch"][1]):
+                if (X.callee_name(c) or "") in ALLOC_LIKE or (X.callee_name(c) or "") in PURE_LIBC:
+                    continue        # storage sized by a field / a value libc reads off a field is not a compiled form of it
+                for a in c["ch"][1:]:
+                    for y in walk(a):
+                        f_ = own_field(y)
+                        if f_ is not None and f_ != d_:
+                            ins.add(f_)
+            if ins:
+                old = direct.get(g.name)
+                direct[g.name] = (d_, ins | (old[1] if old else set()))
+    out = dict(direct)
+    changed = True
+    while changed:
+        changed = False
+        for g in unit.functions.values():
+            if g.name in out or g.body is None or not g.params:
+                continue
+            p0 = g.params[0]["d"]
+            rets = [x for x in walk(g.body) if x.get("k") == "return" and x.get("val") is not None]
+            good = []
+            for r in rets:
+                v = X.strip(r["val"])
+                if X.const_val(v) == 0:
+                    continue            # failure return
+                if v.get("k") == "call" and X.callee_name(v) in out and len(v["ch"]) > 1 and X.strip(v["ch"][1]).get("d") == p0:
+                    good.append(X.callee_name(v))
+                else:
+                    good = None
+                    break
+            if good:
+                out[g.name] = out[good[0]]
+                changed = True
+    return out
+
+
+def check_derived(chk, prog, f):
+    """D6: a field of the copy that another field is computed from (the flags a pattern is compiled with) is stored before the
+    last computation: after `copy->flags = ..` every path to the return of the copy passes a call of the computing function on
+    the copy.  Otherwise the copy reports the original's flags but matches with the pattern compiled under other flags."""
+    dv = derivers(f.unit)
+    if not dv:
+        return 0
+    inputs = set()
+    for _, (d_, ins) in dv.items():
+        inputs |= ins
+    cfg = nullness.prepared_cfg(f, NORETURN)
+    p0 = f.params[0]["d"] if f.params else None
+
+    def lhs_copy_field(n):
+        if n.get("k") == "assign":
+            t = X.strip(n["ch"][0])
+            if t.get("k") == "member" and t.get("arrow") and t.get("n") in inputs:
+                b = X.strip(t["ch"][0])
+                if b.get("k") == "ref" and b.get("rk") == "local":
+                    return b["d"], t["n"]
+        return None
+
+    derived_fields = {d_ for (d_, ins) in dv.values()}
+
+    def transfer(st, n, blk):
+        lf = lhs_copy_field(n)
+        if lf is not None:
+            return st | {lf}
+        if n.get("k") == "assign":
+            t = X.strip(n["ch"][0])
+            if t.get("k") == "member" and t.get("arrow") and t.get("n") in derived_fields:
+                b = X.strip(t["ch"][0])
+                if b.get("k") == "ref":
+                    # the derived field itself is copied/stored: nothing stale remains for the inputs it is computed from
+                    ins_ = set()
+                    for (d_, i_) in dv.values():
+                        if d_ == t["n"]:
+                            ins_ |= i_
+                    return frozenset(x for x in st if not (x[0] == b["d"] and x[1] in ins_))
+        if n.get("k") == "call" and X.callee_name(n) in dv and len(n["ch"]) > 1:
+            a = X.strip(n["ch"][1])
+            if a.get("k") == "ref":
+                return frozenset(x for x in st if not (x[0] == a["d"] and x[1] in dv[X.callee_name(n)][1]))
+        return st
+    sites = [n for n in walk(f.body) if lhs_copy_field(n) is not None]
+    if not sites:
+        return 0
+    bad = []
+
+    def visit(st, n, blk):
+        if n.get("k") == "return" and n.get("val") is not None:
+            v = X.strip(n["val"])
+            if v.get("k") == "ref":
+                for (d, fld) in st:
+                    if d == v["d"]:
+                        bad.append((n, fld))
+    flow.forward(cfg, frozenset(), transfer, join=lambda a, b: a | b, visit=visit)
+    for sname in sorted({lhs_copy_field(n)[1] for n in sites}):
+        b_ = [x for x in bad if x[1] == sname]
+        who = sorted(g for g, (d_, ins) in dv.items() if sname in ins)
+        chk.ob("D6", f.name, "derived-after:" + sname, not b_, loc=f.loc(b_[0][0]) if b_ else f.loc(sites[0]),
+               detail="%s stores the copy's `%s` and returns the copy on a path without calling %s on it afterwards: `%s` was computed "
+                      "by the constructor from the default `%s`, so the copy reports the original's `%s` but behaves according to another" % (
+                          f.name, sname, "/".join(who), dv[who[0]][0] if who else "?", sname, sname),
+               proof="every path from the store to the return of the copy calls %s on the copy" % "/".join(who))
+    return len(sites)
+
+
 def fatal_params(prog):
     if id(prog) not in _FATAL:
         _FATAL.clear()
@@ -536,6 +668,7 @@ def run(tier="quick"):
                      ("K6", "comp does not dereference a field/element that may be NULL in a reachable state"),
                      ("D1", "dup returns a fresh object"), ("D2", "owned pointer fields of the copy are fresh"),
                      ("D3", "elements of the copy are duplicates"), ("D4", "dup is total on nullable states"), ("D5", "the copy satisfies the representation invariant (its recorded capacity is really allocated)"),
+                     ("D6", "a field another field is computed from is stored in the copy before the last computation"),
                      ("T1", "type() returns the object's class name")):
         chk.rule(rid, txt)
     prog = facts.extract()
@@ -546,8 +679,11 @@ def run(tier="quick"):
     for f in fam:
         check_comp(chk, prog, summ, f, f.name in slot_comp, nullable)
     dups = [f for f in classinfo.functions_in_slot(prog, "dup") if f.unit.name in FILES]
+    nd6 = 0
     for f in dups:
         check_dup(chk, prog, summ, f, nullable)
+        nd6 += check_derived(chk, prog, f)
+    chk.count("derived_field_stores_in_dup", nd6, floor=1)
     # D5: the copy's storage satisfies the class's representation invariant (CAP over the value-class dup functions)
     from ..capcheck import run_cap
     vdups = [f for f in dups if f.unit.name in ("str.c", "ustr.c", "mbuff.c", "array.c") and "iterator" not in f.name]
